@@ -42,6 +42,14 @@ func (b Bound) text() string {
 		return "$two[*]"
 	case "none":
 		return "$two[*] ? (@ > 99)"
+	case "arr1":
+		// a one-element array holding a number is an array, not a single number (the
+		// subscript expression is not unwrapped)
+		return "$one"
+	case "arr2":
+		return "$two"
+	case "nested1":
+		return "$nest[0]"
 	case "guarded0":
 		// index 0, guarded by an exists() whose operand has its own subscript and a further step
 		return "0 ? (exists($two[0].type()))"
@@ -175,7 +183,7 @@ func checkSubscriptFacts(c SubscriptCase) (*Violation, subFacts) {
 	if ev == nil {
 		ev = &Ev{Prop: "C14"}
 	}
-	vars := map[string]string{"two": "[1,2]"}
+	vars := map[string]string{"two": "[1,2]", "one": "[1]", "nest": "[[0],1]"}
 	o := Opts{HasVars: true, Vars: vars, UseNumber: c.UseNumber}
 	got := RunQuery(context.Background(), p, doc, o.Options(o.VarsValue())...)
 	if got.Panic != "" {
@@ -287,7 +295,7 @@ func subscriptBounds(full bool) []Bound {
 		Bound{Kind: "last"}, Bound{Kind: "lastminus", I: 1}, Bound{Kind: "lastminus", I: 2}, Bound{Kind: "lastplus", I: 1})
 	if full {
 		bs = append(bs, Bound{Kind: "str"}, Bound{Kind: "big"}, Bound{Kind: "negbig"}, Bound{Kind: "multi"}, Bound{Kind: "none"}, Bound{Kind: "null"}, Bound{Kind: "bool"},
-			Bound{Kind: "num", F: 2147483647.5}, Bound{Kind: "num", F: 2147483648.5}, Bound{Kind: "num", F: 1e300}, Bound{Kind: "inner_last"}, Bound{Kind: "inner_first"}, Bound{Kind: "guarded0"})
+			Bound{Kind: "num", F: 2147483647.5}, Bound{Kind: "num", F: 2147483648.5}, Bound{Kind: "num", F: 1e300}, Bound{Kind: "inner_last"}, Bound{Kind: "inner_first"}, Bound{Kind: "guarded0"}, Bound{Kind: "arr1"}, Bound{Kind: "arr2"}, Bound{Kind: "nested1"})
 	}
 	return bs
 }
@@ -327,7 +335,7 @@ func TestC14(t *testing.T) {
 	t.Run("exhaustive", func(t *testing.T) {
 		b := ev.enum(t)
 		full := subscriptBounds(true)
-		small := []Bound{{Kind: "int", I: 0}, {Kind: "int", I: 1}, {Kind: "int", I: 5}, {Kind: "last"}, {Kind: "int", I: -1}, {Kind: "str"}, {Kind: "guarded0"}}
+		small := []Bound{{Kind: "int", I: 0}, {Kind: "int", I: 1}, {Kind: "int", I: 5}, {Kind: "last"}, {Kind: "int", I: -1}, {Kind: "str"}, {Kind: "guarded0"}, {Kind: "arr1"}}
 		var lists [][]SubSpec
 		for _, x := range full {
 			lists = append(lists, []SubSpec{{From: x}})
